@@ -2281,6 +2281,79 @@ def extract_ws_guards(src: Path) -> str:
                 fail("handshakeName", f"Handshake.__init__: normalisation of the header name not recognised: {[ast.unparse(a) for a in assigns]}")
     except Exception as e:
         fail("handshakeName", f"{type(e).__name__}: {e}")
+    # ---- Handshake.accept: the traversals of `additional_headers`, in order (C11-12).  ASGI types the `headers` of
+    #      websocket.accept as an Iterable: a generator / iterator / map object yields its pairs ONCE, so what a second
+    #      traversal sees depends on the container the application chose.  Each use of the parameter becomes one pass:
+    #      `materialise` (`x = list(x)` / `tuple(x)`), `check` (a loop that validates the names and refuses
+    #      sec-websocket-protocol), `emit` (`headers.extend(build_and_validate_headers(x))`), `checkEmit` (the loop that does both).
+    out.append("/-- one traversal of the application's `headers` iterable in `Handshake.accept` -/\n"
+               "inductive ExtraPass | materialise | check | emit | checkEmit\nderiving Repr, DecidableEq")
+    try:
+        acc = find_def(parse(src / "protocol/ws_stream.py"), "Handshake", "accept")
+        pname = "additional_headers"
+        if acc is None or pname not in [a.arg for a in acc.args.args]:  # type: ignore
+            fail("acceptExtraPasses", "Handshake.accept(subprotocol, additional_headers) not found")
+        else:
+            aliases = {pname}
+            passes: List[str] = []
+            why = ""
+
+            def n_uses(n: ast.AST) -> int:
+                return sum(1 for x in ast.walk(n) if isinstance(x, ast.Name) and x.id in aliases)
+
+            def is_call(n: ast.AST, fname: str, arg: Optional[str] = None) -> bool:
+                return isinstance(n, ast.Call) and ast.unparse(n.func) == fname and len(n.args) == 1 and not n.keywords \
+                    and (arg is None or ast.unparse(n.args[0]) == arg)
+
+            def loop_kind(loop: ast.For) -> Optional[str]:
+                tgt = loop.target
+                if not (isinstance(tgt, ast.Tuple) and len(tgt.elts) == 2 and all(isinstance(e, ast.Name) for e in tgt.elts)) or loop.orelse:
+                    return None
+                nm, val = tgt.elts[0].id, tgt.elts[1].id  # type: ignore
+                body = list(loop.body)
+                if len(body) not in (2, 3) or not isinstance(body[0], ast.Assign) or len(body[0].targets) != 1 \
+                        or not isinstance(body[0].targets[0], ast.Name) or not is_call(body[0].value, "validate_header_name", nm):
+                    return None
+                vn = body[0].targets[0].id
+                t = body[1]
+                if not (isinstance(t, ast.If) and not t.orelse and len(t.body) == 1 and isinstance(t.body[0], ast.Raise)
+                        and isinstance(t.test, ast.Compare) and len(t.test.ops) == 1 and isinstance(t.test.ops[0], ast.Eq)
+                        and sorted([ast.unparse(t.test.left), ast.unparse(t.test.comparators[0])]) == sorted(["b'sec-websocket-protocol'", vn])):
+                    return None
+                if len(body) == 2:
+                    return "check"
+                return "checkEmit" if ast.unparse(body[2]) == f"headers.append(({vn}, validate_header_part({val})))" else None
+
+            stale: set = set()      # names of the iterable before it was copied: a later traversal of them sees what is left
+            for st in acc.body:  # type: ignore
+                if any(isinstance(x, ast.Name) and x.id in stale for x in ast.walk(st)):
+                    why = f"`{ast.unparse(st)[:100]}` uses the iterable after it has been copied"
+                    break
+                if not n_uses(st):
+                    continue
+                if isinstance(st, ast.Assign) and len(st.targets) == 1 and isinstance(st.targets[0], ast.Name) and n_uses(st.value) == 1 \
+                        and (is_call(st.value, "list") or is_call(st.value, "tuple")) and isinstance(st.value.args[0], ast.Name):  # type: ignore
+                    passes.append("materialise")
+                    stale |= aliases - {st.targets[0].id}
+                    aliases = {st.targets[0].id}      # from here on the (re-iterable) copy is what may be traversed
+                elif isinstance(st, ast.For) and isinstance(st.iter, ast.Name) and st.iter.id in aliases and n_uses(st) == 1 and loop_kind(st):
+                    passes.append(loop_kind(st))  # type: ignore
+                elif isinstance(st, ast.Expr) and n_uses(st) == 1 and any(ast.unparse(st.value) == f"headers.extend(build_and_validate_headers({a}))" for a in aliases):
+                    passes.append("emit")
+                elif isinstance(st, ast.AugAssign) and n_uses(st) == 1 and any(ast.unparse(st) == f"headers += build_and_validate_headers({a})" for a in aliases):
+                    passes.append("emit")
+                else:
+                    why = f"use of `{pname}` not recognised: `{ast.unparse(st)[:100]}`"
+                    break
+            if why:
+                fail("acceptExtraPasses", "Handshake.accept: " + why)
+            elif not passes:
+                fail("acceptExtraPasses", f"Handshake.accept never traverses `{pname}`")
+            else:
+                out.append(f"/-- `Handshake.accept`: the traversals of `{pname}` (an Iterable: possibly one-shot), in order -/")
+                out.append("def acceptExtraPasses : List ExtraPass := [" + ", ".join("." + p for p in passes) + "]")
+    except Exception as e:
+        fail("acceptExtraPasses", f"{type(e).__name__}: {e}")
     out += ["end HC.Extracted.WsGuards", ""]
     return "\n".join(out)
 
@@ -2592,6 +2665,15 @@ def main() -> int:
         print(f"EXTRACT Select.lean {'updated' if changed else 'unchanged'}")
     except Exception as e:
         fail("Select", f"{type(e).__name__}: {e}")
+    # C10: how one WebSocket frame is handed from WSStream to the connection's byte stream - one Data event, one push / write of
+    # the whole of it (tools/extract_wssend.py)
+    CURRENT[0] = "WsSend"
+    try:
+        import extract_wssend
+        changed = write_if_changed(outd / "WsSend.lean", extract_wssend.run(src, sys.modules[__name__]))
+        print(f"EXTRACT WsSend.lean {'updated' if changed else 'unchanged'}")
+    except Exception as e:
+        fail("WsSend", f"{type(e).__name__}: {e}")
     # C17 / C19 / C20: object / key / filter choices of the WSGI wrapper, Config.from_object and the HTTPS redirect
     # (tools/extract_pure.py; one generated module and EXTRACT-FAIL tag per property)
     CURRENT[0] = "PureSites"
